@@ -9,7 +9,7 @@ def NoSpawn (step : T → Action T V E) : Prop := ∀ t c t', step t ≠ .spawn 
 
 /-- at most the main thread is queued, nothing waits to be enqueued -/
 def Single (r : Runtime T V E) : Prop :=
-  r.newThreads = [] ∧ (r.runQueue = [] ∨ ∃ m, r.runQueue = [m] ∧ m.done = false)
+  r.newThreads = [] ∧ (r.runQueue = [] ∨ ∃ m, r.runQueue = [m] ∧ m.gone = false)
 
 theorem Single.noDone {r : Runtime T V E} (h : Single r) : NoDone r := by
   refine ⟨?_, by simp [h.1]⟩
@@ -59,7 +59,9 @@ theorem runN_one_single (step : T → Action T V E) (hs : NoSpawn step) (r : Run
       · rename_i h1 h2
         right
         refine ⟨(exec step r0 m).2, by simp [he1], ?_⟩
-        cases hm : (exec step r0 m).2.isMain <;> cases hdn : (exec step r0 m).2.done <;> simp_all
+        unfold Thread.gone
+        cases hm : (exec step r0 m).2.isMain <;> cases hdn : (exec step r0 m).2.done <;>
+          cases hee : (exec step r0 m).2.err <;> simp_all
   split
   · exact ⟨rfl, hp⟩
   · rw [drain_nil _ hp.1]
@@ -164,7 +166,7 @@ theorem runN_single_canon (step : T → Action T V E) (hs : NoSpawn step) (host 
   | zero => rw [runN_zero step r hr.1]; exact ⟨rfl, hr⟩
   | succ b ih =>
     -- either the lone thread can run, or the call does nothing
-    have hstuck : (∀ t ∈ r.runQueue, t.canRun = false ∧ t.done = false) →
+    have hstuck : (∀ t ∈ r.runQueue, t.canRun = false ∧ t.gone = false) →
         (h, (runN step (b + 1) r).rt) = canon step host (runN step (b + 1) r).steps (h, r) ∧
           Single (runN step (b + 1) r).rt := by
       intro hall
@@ -240,7 +242,7 @@ theorem drive_single_canon (step : T → Action T V E) (hs : NoSpawn step) (host
 /-- the program has run to its end: nothing is queued, or only the failed (and not pending) thread -/
 def Fin (r : Runtime T V E) : Prop :=
   r.newThreads = [] ∧
-    (r.runQueue = [] ∨ ∃ m, r.runQueue = [m] ∧ m.pending = none ∧ m.err.isSome = true ∧ m.done = false)
+    (r.runQueue = [] ∨ ∃ m, r.runQueue = [m] ∧ m.pending = none ∧ m.err.isSome = true ∧ m.gone = false)
 
 theorem Fin.stuck {r : Runtime T V E} (h : Fin r) : Stuck r := by
   refine ⟨h.1, ?_⟩
